@@ -14,10 +14,10 @@ open Victron
 def at' (inp spare : Bytes) (k : Nat) : Int := ((inp ++ spare).getD k 0 : Nat)
 
 /-- reduce to an unsigned `w`-bit value (Go: conversion to / arithmetic in uintw) -/
-def wrapU (w : Nat) (x : Int) : Int := x % (2 ^ w : Nat)
+def wrapU (w : Nat) (x : Int) : Int := x % (2 : Int) ^ w
 
 /-- reduce to a signed `w`-bit value, two's complement (Go: conversion to / arithmetic in intw) -/
-def wrapS (w : Nat) (x : Int) : Int := (x + (2 ^ (w - 1) : Nat)) % (2 ^ w : Nat) - (2 ^ (w - 1) : Nat)
+def wrapS (w : Nat) (x : Int) : Int := (x + (2 : Int) ^ (w - 1)) % (2 : Int) ^ w - (2 : Int) ^ (w - 1)
 
 /-- a float64 result field: symbolic `raw * mul / div + off`, NaN -/
 inductive FV where
@@ -44,7 +44,9 @@ def enumOk (enums : List EnumTable) (name : String) (v : Int) : Bool :=
 /-- the little-endian bit slice [s, s+w) of a byte string -/
 def bits (inp : Bytes) (s w : Nat) : Nat := leNat inp / 2 ^ s % 2 ^ w
 
-/-- two's complement reading of a `w`-bit raw value -/
-def sx (w : Nat) (v : Nat) : Int := if v < 2 ^ (w - 1) then (v : Int) else (v : Int) - (2 ^ w : Nat)
+/-- two's complement reading of a `w`-bit raw value `v < 2^w`: `(v + 2^(w-1)) mod 2^w - 2^(w-1)`, i.e. `v` below
+    2^(w-1) and `v - 2^w` from there on (`sx_eq_if` in Props/C07.lean); written without a case split so that
+    `omega` can compare it with whatever the code computes -/
+def sx (w : Nat) (v : Nat) : Int := ((v : Int) + (2 : Int) ^ (w - 1)) % (2 : Int) ^ w - (2 : Int) ^ (w - 1)
 
 end Victron.Ble
